@@ -967,15 +967,21 @@ def replay_file(path: str) -> int:
 def fresh_digests(seeds: List[int], tier: str, hashseed: str) -> Dict[str, str]:
     """Digests of the given run seeds computed in a fresh interpreter under another harness hash seed."""
     import subprocess
+    import tempfile
 
     env = dict(os.environ)
     env["PYTHONHASHSEED"] = hashseed
     env["VERIF_WORKERS"] = "4"
-    env["LSPV_EXTRAS"] = json.dumps([list(x) for x in battery.STRUCT[N_BASE_STRUCT:]])
-    p = subprocess.run(
-        [sys.executable, "-m", "sim.c19", "--digests", tier, ",".join(map(str, seeds))],
-        cwd=str(core.VERIF), env=env, capture_output=True, text=True, timeout=600,
-    )
+    fd, path = tempfile.mkstemp(prefix="lspv-digests-", suffix=".json", dir=str(core.scratch_base()))
+    try:
+        with os.fdopen(fd, "w") as f:
+            json.dump({"tier": tier, "seeds": seeds, "extras": [list(x) for x in battery.STRUCT[N_BASE_STRUCT:]]}, f)
+        p = subprocess.run([sys.executable, "-m", "sim.c19", "--digests", path], cwd=str(core.VERIF), env=env, capture_output=True, text=True, timeout=900)
+    finally:
+        try:
+            os.unlink(path)
+        except OSError:
+            pass
     if p.returncode != 0:
         raise core.HarnessError(f"fresh-interpreter digest run failed: {p.stderr[-800:]}")
     return json.loads(p.stdout.strip().splitlines()[-1])
@@ -989,7 +995,7 @@ def main(argv: List[str]) -> int:
     ap.add_argument("--replay")
     ap.add_argument("--runs", type=int)
     ap.add_argument("--budget", type=float)
-    ap.add_argument("--digests", nargs=2, metavar=("TIER", "SEEDS"))
+    ap.add_argument("--digests", metavar="REQUEST_FILE")
     ap.add_argument("--no-selftest", action="store_true")
     a = ap.parse_args(argv)
 
@@ -999,8 +1005,9 @@ def main(argv: List[str]) -> int:
     zygote_init(str(core.repo_root()))  # parent is the zygote of all pool workers (fork)
 
     if a.digests:
-        install_extras(json.loads(os.environ.get("LSPV_EXTRAS") or "[]"))
-        tier, seeds = a.digests[0], [int(x) for x in a.digests[1].split(",") if x]
+        req = json.loads(open(a.digests).read())
+        install_extras(req["extras"])
+        tier, seeds = req["tier"], [int(x) for x in req["seeds"]]
         tasks = [gen_run(s, tier) for s in seeds]
         res = core.run_pool(worker_run, tasks, workers=core.n_workers())
         print(json.dumps({str(seeds[i]): r.get("digest") for i, r in res}))
